@@ -85,4 +85,10 @@ CHECKS = {
   "text": "Single-group charges are compared with an independent HH evaluation (range, half charge at pH = pKa, never increasing) over pKa in [-20,40] and pH in [-200,200] incl. neighbouring floats; for generated structures (acids only, bases only, mixed, ligand-only, nothing titratable) and generated grids every API profile row and every printed row must equal the sums of HH charges with model / predicted pKa (unfolded, folded order), and every pI (default and user windows/precisions, and the printed line) must bracket a root of the right reference curve; histories query profiles and pI before and after the pKa calculation on the same container.",
   "note": "Trusts vlib/refs.py:hh_charge (5 lines). Single-group comparisons use 1e-12, totals 1e-9, printed values must be correct roundings. |pKa - pH| < 308 (float range).",
  },
+ "C10": {
+  "level": "exploration",
+  "technique": "property-based testing (Hypothesis): closed-form and Simpson proton-linkage oracles over the reported profiles, independent grid enumeration, re-derived optimum and ranges, parsed .pka sections, over generated structures x grids x windows x parameter variants",
+  "text": "For generated structures, user grids (incl. decimal steps that do not accumulate exactly, negative minima, maxima > 14), windows and parameter files with shifted model pKa values (run one after another in the same process), both references: the dG profile equals the closed-form linkage expression built from the record (1e-9) and is Simpson-consistent with the reported charge curves; profile pH values are exactly min + i*step incl. both end points; optimum, 80 % range and stability range are re-derived from the profile; the printed charge table, folding window rows, optimum and range lines agree.",
+  "note": "Printed folding rows are asserted only where every reading of 'window' agrees (grid step >= 0.1, window minimum a multiple of the window step, lattice points on the grid). Fixed findings F2, F3, F14 are regression cases.",
+ },
 }
